@@ -220,6 +220,24 @@ def fb_values(tier, used_offsets):
                 pts.append(((p.year, p.month, p.day, p.hour, p.minute, p.second), 'transition'))
         for utc, label in pts:
             out.append({'value': 'pytz-unmapped', 'olson': olson, 'utc': list(utc), 'wall_kind': label})
+    # pytz values of MAPPED zones whose offset is not the zone's offset at that instant: localize() of a skipped local
+    # time (either is_dst), arithmetic across a switch without normalize(), a zone attached with tzinfo= (its first,
+    # LMT, offset).  No zone name and offset can both be kept: the writer names a zone that has the value's offset at
+    # that instant, or raises ValueError.
+    for olson in ('America/New_York', 'Europe/Berlin', 'Australia/Sydney', 'Australia/Lord_Howe', 'Europe/London',
+                  'America/St_Johns', 'Pacific/Auckland', 'America/Santiago', 'Asia/Tehran', 'America/Havana'):
+        if olson not in rmap:
+            continue
+        tz = g['pytz'].timezone(olson)
+        tt, ti = tz._utc_transition_times, tz._transition_info
+        for i in range(1, len(tt)):
+            if not (2019 <= tt[i].year <= 2022) or ti[i][0] <= ti[i - 1][0]:
+                continue
+            w = tt[i] + ti[i - 1][0] + datetime.timedelta(minutes=10)        # a wall time the switch skips
+            wall = [w.year, w.month, w.day, w.hour, w.minute, w.second]
+            for how in ('gap_std', 'gap_dst', 'unnormalised'):
+                out.append({'value': 'pytz-odd', 'olson': olson, 'wall': wall, 'how': how, 'wall_kind': 'transition'})
+        out.append({'value': 'pytz-odd', 'olson': olson, 'wall': [2020, 1, 1, 0, 0, 0], 'how': 'tzinfo', 'wall_kind': 'ordinary'})
     return out
 
 
@@ -235,6 +253,16 @@ def fb_build(v):
         txt = '%04d-%02d-%02dT%02d:%02d:%02d' % tuple(v['wall']) + \
               '%s%02d:%02d' % ('-' if m < 0 else '+', abs(m) // 60, abs(m) % 60)
         return g['hs'].parse_scalar(txt, mode=g['hs'].MODE_ZINC)
+    if v['value'] == 'pytz-odd':
+        tz = g['pytz'].timezone(v['olson'])
+        naive = datetime.datetime(*v['wall'])
+        if v['how'] == 'gap_std':
+            return tz.localize(naive)
+        if v['how'] == 'gap_dst':
+            return tz.localize(naive, is_dst=True)
+        if v['how'] == 'unnormalised':
+            return tz.localize(naive - datetime.timedelta(hours=2)) + datetime.timedelta(hours=2)
+        return naive.replace(tzinfo=tz)
     return g['pytz'].utc.localize(datetime.datetime(*v['utc'])).astimezone(g['pytz'].timezone(v['olson']))
 
 
